@@ -7,6 +7,7 @@ CONSTANTS
   PDUs = {1, 2}
   N = 3
   Depth = 9
+  Faults = {"none"}
   Export = TRUE
 CONSTRAINT Bounded
 INVARIANTS ExportInv
